@@ -38,7 +38,8 @@
 //     structure; every other struct type (time.Time, sync.Mutex, netip.Addr,
 //     dns.Msg, caches, …) is abstract: parameters of such types are dropped and
 //     an expression that reads from them (`req.Question[0].Qtype`) becomes an
-//     extra parameter `e<k>_<name>` holding its value;
+//     extra parameter `e<k>_<name>` holding its value; so does a type assertion
+//     `x.(T)` to a translatable type (the dynamic type is not modelled);
 //   - []error literals, append on them and errors.Join are lists of optional
 //     texts and "first non-nil" (errors.Join is non-nil iff an element is);
 //   - any other call is *opaque*: its result becomes an extra parameter of the
@@ -604,6 +605,9 @@ func (c *fctx) expr(e ast.Expr) ex {
 		}
 	}
 	if _, ok := e.(*ast.IndexExpr); ok {
+		return c.opaqueValue(e)
+	}
+	if _, ok := e.(*ast.TypeAssertExpr); ok {
 		return c.opaqueValue(e)
 	}
 	fail("expression %s (%T)", c.show(e), e)
